@@ -1311,6 +1311,20 @@ func (ev *cenv) evalLV(e *CExpr) *LVal {
 	return nil
 }
 
+// tryEvalBool evaluates a clause; ok=false if it mentions an identifier unknown in this scope.
+func (ev *cenv) tryEvalBool(e *CExpr) (f string, ok bool) {
+	defer func() {
+		if r := recover(); r != nil {
+			if ee, isEE := r.(engineErr); isEE && strings.Contains(string(ee), "unknown identifier") {
+				f, ok = "", false
+				return
+			}
+			panic(r)
+		}
+	}()
+	return ev.evalBool(e), true
+}
+
 func (ev *cenv) tryEval(e *CExpr) (v *Val) {
 	defer func() {
 		if r := recover(); r != nil {
